@@ -18,6 +18,11 @@ func init() {
 		&slip.FuncDoc{
 			Name: "/",
 			Args: []*slip.DocArg{
+				{
+					Name: "number",
+					Type: "number",
+					Text: "The number to divide or, if alone, to take the reciprocal of.",
+				},
 				{Name: "&rest"},
 				{
 					Name: "numbers",
